@@ -93,6 +93,14 @@ impl Workload {
         }
         if self.odd_names && !self.docs.is_empty() {
             push("data/od d&<é>'\"#%20[x]{y}$(z);.json".into(), doc::render(&self.docs[0].0, DocFmt::JsonCompact).into_bytes());
+            // names that differ only in case (legal on Linux): an ordering that folds case
+            // cannot tell them apart and falls back on the enumeration order
+            let (last, _) = &self.docs[self.docs.len() - 1];
+            let f0 = self.docs[0].1;
+            push(format!("data/D0.{}", f0.ext()), doc::render(last, f0).into_bytes());
+            if self.progs.len() > 1 {
+                push("rules/R0.guard".into(), b"rule case_twin {\n  zz_no_such_key !exists\n}\n".to_vec());
+            }
         }
         for (i, p) in self.progs.iter().enumerate() {
             push(rules_rel(i), p.print().into_bytes());
